@@ -105,11 +105,11 @@ fn part_of<'a>(spec: &'a ContractSpec, h: &HandlerSpec) -> Option<&'a rt::spec::
 /// the owning part's own reading of the document (canonical argument values), if it accepts it
 fn owner_reading(e: &Entry, kind: Kind, h: &HandlerSpec, bytes: &[u8]) -> Option<Map<String, Value>> {
     let text = match kind {
-        Kind::Exec | Kind::Query | Kind::Sudo => (e.parts_accept)(kind.entry(), bytes)
+        Kind::Exec | Kind::Query | Kind::Sudo => super::safe_parts(e, kind.entry(), bytes)
             .into_iter()
             .find(|v| v.part == h.part)
             .and_then(|v| v.res.ok())?,
-        _ => (e.wrapper_roundtrip)(kind.entry(), bytes).ok()?,
+        _ => super::safe_wrapper(e, kind.entry(), bytes).ok()?,
     };
     let v: Value = serde_json::from_str(&text).ok()?;
     match kind {
